@@ -121,6 +121,8 @@ structure Inv (cs : List Chunk) (v : Variant) (c : Cfg) : Prop where
   safe : SafeFS cs c.fs
   handTerm : c.handling = true → c.term = true
   main : c.handling = false → 16 ≤ hr c.prog → hr c.prog ≤ 25 → Main cs v c
+  tempSome : 12 ≤ hr c.prog → hr c.prog ≤ 24 → c.fs.temp ≠ none
+  termLate : 19 ≤ hr c.prog → hr c.prog ≤ 25 → c.term = true
 
 
 /-! ## helpers for steps that pop the head item -/
@@ -190,8 +192,8 @@ theorem inv_init_low {cs : List Chunk} {v : Variant} {c : Cfg} (h : Inv cs v c) 
     · simp [hfin] at hd
   · intro hh; exact h.handTerm hh
   · intro _ h16 _; simp at h16; omega
-
-
+  · intro h12 _; simp at h12; omega
+  · intro h19 _; simp at h19; omega
 
 theorem shape_nil : Shape [] := by
   refine ⟨List.Pairwise.nil, by simp, ?_⟩
@@ -215,6 +217,8 @@ theorem inv_terminal {cs : List Chunk} {v : Variant} {c : Cfg} (h : Inv cs v c) 
   · exact h.safe
   · exact h.handTerm
   · intro _ _ hk; simp at hk
+  · intro _ hk; simp at hk
+  · intro _ hk; simp at hk
 
 theorem hr_handlerItems (hs : HandlerSpec) : 16 ≤ hr (handlerItems hs) ∧ hr (handlerItems hs) ≤ 17 := by
   unfold handlerItems
@@ -225,7 +229,7 @@ theorem hr_handlerItems (hs : HandlerSpec) : 16 ≤ hr (handlerItems hs) ∧ hr 
     simp [this]
 
 /-- the processor's exception handler takes over -/
-theorem inv_handler {cs : List Chunk} {v : Variant} {c : Cfg} (h : Inv cs v c) (f : Bool) :
+theorem inv_handler {cs : List Chunk} {v : Variant} {c : Cfg} (h : Inv cs v c) (ht : c.fs.temp ≠ none) (f : Bool) :
     Inv cs v { c with prog := handlerItems c.spec, term := true, handling := true, failed := f } := by
   have hk := hr_handlerItems c.spec
   constructor
@@ -241,6 +245,8 @@ theorem inv_handler {cs : List Chunk} {v : Variant} {c : Cfg} (h : Inv cs v c) (
   · exact h.safe
   · intro _; rfl
   · intro hh; simp at hh
+  · intro _ _; exact ht
+  · intro _ _; rfl
 
 theorem inv_failedFlag {cs : List Chunk} {v : Variant} {c : Cfg} (h : Inv cs v c) (f : Bool) :
     Inv cs v { c with failed := f } := by
@@ -260,20 +266,38 @@ theorem inv_failedFlag {cs : List Chunk} {v : Variant} {c : Cfg} (h : Inv cs v c
     have m := h.main hh h16 h25
     exact ⟨m.chunksMd, m.cover, m.nodup, m.substd, m.wstd, m.awaited, m.reads, m.names, m.mdOpen, m.sj, m.noApp,
       m.noRead, m.nocmeta, m.unl, m.collectOnce, m.lateItems⟩
+  · exact h.tempSome
+  · exact h.termLate
 
-theorem inv_fail {cs : List Chunk} {v : Variant} {c : Cfg} (h : Inv cs v c) : Inv cs v c.fail := by
+/-- the saver thread gets an exception while it still has something to do -/
+theorem inv_fail {cs : List Chunk} {v : Variant} {c : Cfg} (h : Inv cs v c) (hne : c.prog ≠ []) : Inv cs v c.fail := by
   unfold Cfg.fail
   split
   · split
     · exact inv_terminal h _ _ _
     · have := inv_terminal h .raised c.failed c.lost
       simpa using this
-  · have := inv_handler h c.failed
+  · rename_i hterm
+    simp only [Bool.or_eq_true, not_or, Bool.not_eq_true] at hterm
+    -- only between `armed` and `markClosed` can a failure be handed to the handler: the temp directory is there
+    have hk25 : hr c.prog ≤ 25 := by
+      cases hp : c.prog with
+      | nil => exact absurd hp hne
+      | cons x rest => simpa using rank_le_of_ok (h.shape.ok x (by rw [hp]; simp))
+    have hk16 : 16 ≤ hr c.prog := by
+      by_cases hk : hr c.prog ≤ 15
+      · have := (h.initFlags hk).1; rw [hterm.1] at this; cases this
+      · omega
+    have hk18 : hr c.prog ≤ 18 := by
+      by_cases hk : 19 ≤ hr c.prog
+      · have := h.termLate hk hk25; rw [hterm.1] at this; cases this
+      · omega
+    have := inv_handler h (h.tempSome (by omega) (by omega)) c.failed
     simpa using this
 
-theorem inv_opFail {cs : List Chunk} {v : Variant} {c : Cfg} (h : Inv cs v c) : Inv cs v c.opFail := by
+theorem inv_opFail {cs : List Chunk} {v : Variant} {c : Cfg} (h : Inv cs v c) (hne : c.prog ≠ []) : Inv cs v c.opFail := by
   unfold Cfg.opFail
-  exact inv_fail (inv_failedFlag h true)
+  exact inv_fail (inv_failedFlag h true) hne
 
 
 /-! ## the `__init__` phase -/
@@ -457,7 +481,7 @@ theorem inv_init_doOp {cs : List Chunk} {v : Variant} {c : Cfg} {x : Item} {rest
     rcases ho with ho | rfl
     · exact Or.inl (apply_finalSafe ho ha)
     · exact Or.inr (apply_moveFinal ha)
-  · rw [he]; exact inv_opFail h
+  · rw [he]; exact inv_opFail h (by rw [hp]; simp)
 
 theorem inv_sav_low {cs : List Chunk} {v : Variant} {c c' : Cfg} (h : Inv cs v c) (hk : hr c.prog ≤ 10)
     (hs : step c .sav = some c') : Inv cs v c' := by
@@ -526,6 +550,10 @@ theorem inv_init_mid {cs : List Chunk} {v : Variant} {c : Cfg} {x : Item} {rest 
   · intro d hd; exact h.safe d (by simpa [hfin] using hd)
   · intro hh; exact h.handTerm hh
   · intro _ h16 _; simp only at h16; omega
+  · intro _ _
+    obtain ⟨t, ht, _⟩ := htemp
+    simp [ht]
+  · intro h19 _; simp only at h19; omega
 
 theorem rank_11_14_cases {x : Item} (h : 11 ≤ rank x) (h' : rank x ≤ 14) :
     x = .op (.mkdir .temp) ∨ x = .flushOpen .init ∨ x = .flushWrite .init ∨ x = .flushClose .init := by
@@ -548,7 +576,7 @@ theorem inv_sav_mid {cs : List Chunk} {v : Variant} {c c' : Cfg} (h : Inv cs v c
         split at ha <;> simp at ha
         subst ha
         exact ⟨[], rfl, fun y _ => rfl⟩
-      · rw [he]; exact inv_opFail h
+      · rw [he]; exact inv_opFail h (by rw [hp]; simp)
     · -- open(metadata, w)
       obtain ⟨t, ht, hnone⟩ := h.initTemp (by rw [hp]; simp [rank]) (by rw [hp]; simp [rank])
       rcases doOp_eq c (.openTrunc .temp .md) rest with ⟨fs', ha, he⟩ | he
@@ -557,7 +585,7 @@ theorem inv_sav_mid {cs : List Chunk} {v : Variant} {c c' : Cfg} (h : Inv cs v c
         simp only [apply, FS.dir, ht] at ha
         injection ha with ha; subst ha
         exact ⟨t.set .md .empty, rfl, fun y hy => by rw [Dir.get_set]; simp [hy, hnone y hy]⟩
-      · rw [he]; exact inv_opFail h
+      · rw [he]; exact inv_opFail h (by rw [hp]; simp)
     · -- write
       obtain ⟨t, ht, hnone⟩ := h.initTemp (by rw [hp]; simp [rank]) (by rw [hp]; simp [rank])
       rcases doOp_eq c (.write .temp .md (.json c.md)) rest with ⟨fs', ha, he⟩ | he
@@ -567,7 +595,7 @@ theorem inv_sav_mid {cs : List Chunk} {v : Variant} {c c' : Cfg} (h : Inv cs v c
         split at ha <;> simp at ha
         subst ha
         exact ⟨t.set .md (.json c.md), rfl, fun y hy => by rw [Dir.get_set]; simp [hy, hnone y hy]⟩
-      · rw [he]; exact inv_opFail h
+      · rw [he]; exact inv_opFail h (by rw [hp]; simp)
     · -- close
       obtain ⟨t, ht, hnone⟩ := h.initTemp (by rw [hp]; simp [rank]) (by rw [hp]; simp [rank])
       rcases doOp_eq c (.close .temp .md) rest with ⟨fs', ha, he⟩ | he
@@ -576,7 +604,7 @@ theorem inv_sav_mid {cs : List Chunk} {v : Variant} {c c' : Cfg} (h : Inv cs v c
         simp only [apply, FS.dir, ht] at ha
         simp at ha; subst ha
         exact ⟨t, ht, hnone⟩
-      · rw [he]; exact inv_opFail h
+      · rw [he]; exact inv_opFail h (by rw [hp]; simp)
 
 
 
@@ -882,7 +910,9 @@ theorem inv_late {cs : List Chunk} {v : Variant} {c' : Cfg} (hshape : Shape c'.p
     (hclosed : 19 ≤ hr c'.prog → hr c'.prog ≤ 25 → c'.md.ended = true ∧ c'.md.exc = c'.handling)
     (hsynced : 23 ≤ hr c'.prog → hr c'.prog ≤ 24 → ∃ t, c'.fs.temp = some t ∧ t.get .md = some (.json c'.md))
     (hsafe : SafeFS cs c'.fs) (hhand : c'.handling = true → c'.term = true)
-    (hmain : c'.handling = false → 16 ≤ hr c'.prog → hr c'.prog ≤ 25 → Main cs v c') : Inv cs v c' := by
+    (hmain : c'.handling = false → 16 ≤ hr c'.prog → hr c'.prog ≤ 25 → Main cs v c')
+    (htemp : hr c'.prog ≤ 24 → c'.fs.temp ≠ none) (hterm : 19 ≤ hr c'.prog → hr c'.prog ≤ 25 → c'.term = true) :
+    Inv cs v c' := by
   constructor
   · exact hshape
   · exact hwtemp
@@ -896,6 +926,8 @@ theorem inv_late {cs : List Chunk} {v : Variant} {c' : Cfg} (hshape : Shape c'.p
   · exact hsafe
   · exact hhand
   · exact hmain
+  · intro _ h24; exact htemp h24
+  · exact hterm
 
 theorem rank_15_cases {x : Item} (h : rank x = 15) : x = .armed := rank_milestone_unique mem_milestones_armed h
 
@@ -924,7 +956,7 @@ theorem inv_sav_armed {cs : List Chunk} {v : Variant} {c c' : Cfg} (h : Inv cs v
         have : hr rest = rank y := by rw [he]; simp
         have := hpre y (by simp)
         omega
-    refine inv_late hsx.tail (by simp only; omega) (by simp [hw]) ?_ ?_ ?_ h.safe ?_ ?_
+    refine inv_late hsx.tail (by simp only; omega) (by simp [hw]) ?_ ?_ ?_ h.safe ?_ ?_ ?_ ?_
     · intro h18 _; simp only at h18; omega
     · intro h19 _; simp only at h19; omega
     · intro h23 _; simp only at h23; omega
@@ -932,5 +964,9 @@ theorem inv_sav_armed {cs : List Chunk} {v : Variant} {c c' : Cfg} (h : Inv cs v
     · intro _ _ _
       exact main_start (c := { c with prog := rest, term := false }) hrest hmd hw
         (h.initTemp (by rw [hp]; simp [rank]) (by rw [hp]; simp [rank]))
+    · intro _
+      obtain ⟨t, ht, _⟩ := h.initTemp (by rw [hp]; simp [rank]) (by rw [hp]; simp [rank])
+      simp [ht]
+    · intro h19 _; simp only at h19; omega
 
 end Strax.FS
